@@ -70,6 +70,21 @@ fn room_with(v: u8, pl: &Value, target_m: Option<&str>) -> Room {
     room
 }
 
+/// the same room, but created by the acting user: with a power-levels event in the state the creator has the
+/// level that event gives them, like anybody else
+fn room_created_by_actor(v: u8, pl: &Value) -> Room {
+    let mut room = room_with(v, pl, None);
+    let mut create = world::create_event(v);
+    create.sender = SENDER.to_owned();
+    let mut c = create.content_value();
+    if c.get("creator").is_some() {
+        c["creator"] = json!(SENDER);
+    }
+    create.content = c.to_string();
+    room.put(create);
+    room
+}
+
 fn auth_ok(v: u8, room: &Room, mut e: Ev, t: &mut Tally) -> Result<bool, String> {
     world::fill_auth_events(v, &mut e, &room.state);
     e.prev_events = vec!["$prev:s1".to_owned()];
@@ -197,7 +212,7 @@ fn eval_path(case: &Case, path: &str, h: RoomPowerLevels, t: &mut Tally) -> Vec<
             }
         }
         "send" => {
-            let room = room_with(v, &case.pl, None);
+          for (room, who) in [(room_with(v, &case.pl, None), ""), (room_created_by_actor(v, &case.pl), "actor created the room; ")] {
             for ty in ["m.room.message", "m.reaction", "x.custom"] {
                 let e = world::ev("$new:s1", SENDER, ty, None, json!({"body": "x"}));
                 let a = auth_ok(v, &room, e, t);
@@ -205,7 +220,7 @@ fn eval_path(case: &Case, path: &str, h: RoomPowerLevels, t: &mut Tally) -> Vec<
                     "user_can_do(SendMessage)",
                     h.user_can_do(actor, PowerLevelAction::SendMessage(MessageLikeEventType::from(ty))),
                     a.clone(),
-                    format!("type {ty}"),
+                    format!("{who}type {ty}"),
                     t,
                 );
                 // the level accessors must tell the same story as the predicate
@@ -213,10 +228,10 @@ fn eval_path(case: &Case, path: &str, h: RoomPowerLevels, t: &mut Tally) -> Vec<
                     "for_user>=for_message",
                     h.for_user(actor) >= h.for_message(MessageLikeEventType::from(ty)),
                     a.clone(),
-                    format!("type {ty}"),
+                    format!("{who}type {ty}"),
                     t,
                 );
-                cmp("user_can_send_message", h.user_can_send_message(actor, MessageLikeEventType::from(ty)), a, format!("type {ty}"), t);
+                cmp("user_can_send_message", h.user_can_send_message(actor, MessageLikeEventType::from(ty)), a, format!("{who}type {ty}"), t);
             }
             for ty in ["m.room.name", "m.room.topic", "x.custom", "m.room.power_levels"] {
                 // a power-levels event that changes nothing (the current content again) needs exactly the level
@@ -228,18 +243,19 @@ fn eval_path(case: &Case, path: &str, h: RoomPowerLevels, t: &mut Tally) -> Vec<
                     "user_can_do(SendState)",
                     h.user_can_do(actor, PowerLevelAction::SendState(StateEventType::from(ty))),
                     a.clone(),
-                    format!("type {ty}"),
+                    format!("{who}type {ty}"),
                     t,
                 );
                 cmp(
                     "for_user>=for_state",
                     h.for_user(actor) >= h.for_state(StateEventType::from(ty)),
                     a.clone(),
-                    format!("type {ty}"),
+                    format!("{who}type {ty}"),
                     t,
                 );
-                cmp("user_can_send_state", h.user_can_send_state(actor, StateEventType::from(ty)), a, format!("type {ty}"), t);
+                cmp("user_can_send_state", h.user_can_send_state(actor, StateEventType::from(ty)), a, format!("{who}type {ty}"), t);
             }
+          }
         }
         "for-user" => {
             // effective level through a threshold sweep: auth accepts a message whose type needs L iff L <= for_user
